@@ -34,8 +34,70 @@ def both(*fs):
 
 C, PY, PB, PL, SC = ('lib/check/msgformat/c.py', 'lib/check/msgformat/python.py', 'lib/check/msgformat/pybrace.py', 'lib/check/msgformat/perlbrace.py', 'lib/strformat/c.py')
 TG = 'lib/tags.py'
+MI = 'lib/check/msgformat/__init__.py'
 GT = 'lib/gettext.py'
+CI = 'lib/check/__init__.py'
+MISC = 'lib/misc.py'
 TIES = {
+ 'chkplurals': {
+  'translators': ['chkplurals', 'gettextpf'], 'module': 'I18n.Props.C07ChkTie', 'tests': ['tests/test_misc.py'],
+  'edits': {
+   'seeded/C07-a': seeded('C07-a'), 'seeded/C07-c': seeded('C07-c'), 'seeded/C07-d': seeded('C07-d'), 'seeded/C14-d': seeded('C14-d'),
+   # one-line changes inside the translated part
+   'window-limit-100': ed(CI, ("codomain_limit = 200", "codomain_limit = 100")),
+   'codomain-ge-gt': ed(CI, ("                if fi >= n:", "                if fi > n:")),
+   'else-dropped': ed(CI, ("            else:\n                ctx.plural_preimage = dict(plural_preimage)", "            if True:\n                ctx.plural_preimage = dict(plural_preimage)")),
+   'zero-division-as-overflow': ed(CI, ("message = tags.safe_format('f({}): division by zero', i)", "message = tags.safe_format('f({}): integer overflow', i)")),
+   'gap-upper-off-by-one': ed(CI, ("            if y + 1 < n:\n                uncov_rngs += [range(y + 1, n)]", "            if y + 1 < n:\n                uncov_rngs += [range(y, n)]")),
+   'period-test-inverted': ed(CI, ("if sum(period) < codomain_limit:", "if sum(period) >= codomain_limit:")),
+   'scan-left-neighbour-only': ed(CI, ("                    if (i + 1 < n) and (i + 1 not in ctx.plural_preimage):", "                    if False and (i + 1 not in ctx.plural_preimage):")),
+   'preimage-not-reset': ed(CI, ("                self.tag('codomain-error-in-unused-plural-forms', message)\n            ctx.plural_preimage = None", "                self.tag('codomain-error-in-unused-plural-forms', message)\n            pass")),
+   'registry-two-is-one': ed(CI, ("elif len(locally_correct_plural_forms) == 1:", "elif len(locally_correct_plural_forms) >= 1:")),
+   'format-range-max-4': ed(CI, ("rng = misc.format_range(rng, max=5)", "rng = misc.format_range(rng, max=4)")),
+   'format-range-ellipsis': ed(MISC, ("result[-2:] = ['...', str(last)]", "result[-1:] = ['...', str(last)]")),
+   'format-range-lt-le': ed(MISC, ("        if len(result) < max:", "        if len(result) <= max:")),
+   # behaviour-preserving
+   'bp-comments': ed(CI, ("        codomain_limit = 200\n", "        codomain_limit = 200  # how many values of n are tried\n")),
+   'bp-flip-compare': ed(CI, ("                if fi >= n:", "                if n <= fi:")),
+   'bp-rename-message': ed(CI, ("            rng = misc.format_range(rng, max=5)\n            message = tags.safestr(f'f(x) != {rng}')", "            rng = misc.format_range(rng, max=5)\n            message = tags.safestr(f'f(x) != {rng}')\n            pass")),
+   'bp-format-range-local': ed(MISC, ("    return str.join(', ', map(str, result))", "    joined = str.join(', ', map(str, result))\n    return joined")),
+  }},
+ 'fmtmsg': {
+  'translators': ['fmtmsg'], 'module': 'I18n.Props.C14MsgTie', 'tests': ['tests/test_strformat_c.py'],
+  'edits': {
+   # the mutants of tools/checks/C14_mutants.py that live in check_message
+   'tolerance-3-elements': ed(MI, ("elif len(preimage) == 2 and preimage[0] == 0:", "elif len(preimage) <= 3 and preimage[0] == 0:")),
+   'range-ignored': ed(MI, ("if flags.range_min <= x <= flags.range_max", "if 0 <= x")),
+   'n1-source-plural': ed(MI, ("                    d.src_loc = 'msgid'\n                    d.src_fmt = msgid_fmt\n", "")),
+   'tolerance-two-elements': ed(MI, ("elif len(preimage) <= 1:", "elif len(preimage) <= 2:")),
+   'range-off-by-one': ed(MI, ("if flags.range_min <= x <= flags.range_max", "if flags.range_min < x <= flags.range_max")),
+   'n1-tolerance-unconditional': ed(MI, ("                        len(msgid_fmt) == len(msgid_plural_fmt)\n", "                        True\n")),
+   'msgstr-tolerant': ed(MI, ("            d.omitted_int_conv_ok = False\n            strings += [d]", "            d.omitted_int_conv_ok = True\n            strings += [d]")),
+   # further one-line changes
+   'msgid-error-continues': ed(MI, ("                    # reporting errors against msgstr is not worth the trouble.\n                    return", "                    # reporting errors against msgstr is not worth the trouble.\n                    continue")),
+   'template-args-swapped': ed(MI, ("                'msgid_plural', msgid_fmts[1],\n                'msgid', msgid_fmts[0],", "                'msgid', msgid_fmts[0],\n                'msgid_plural', msgid_fmts[1],")),
+   'fuzzy-not-skipped': ed(MI, ("        if flags.fuzzy:\n            return\n", "")),
+   'encoding-not-required': ed(MI, ("        if ctx.encoding is None:\n            return\n", "")),
+   'msgids-after-template-args': ed(MI, ("        if ctx.is_template and (len(msgid_fmts) == 2):\n            self.check_args(\n                message,\n                'msgid_plural', msgid_fmts[1],\n                'msgid', msgid_fmts[0],\n                omitted_int_conv_ok=True,\n            )\n        self.check_msgids(message, msgid_fmts)\n",
+                                           "        self.check_msgids(message, msgid_fmts)\n        if ctx.is_template and (len(msgid_fmts) == 2):\n            self.check_args(\n                message,\n                'msgid_plural', msgid_fmts[1],\n                'msgid', msgid_fmts[0],\n                omitted_int_conv_ok=True,\n            )\n")),
+   'zero-second': ed(MI, ("elif len(preimage) == 2 and preimage[0] == 0:", "elif len(preimage) == 2 and preimage[1] == 0:")),
+   'preimage-eq-0': ed(MI, ("if preimage == [1]:", "if preimage == [0]:")),
+   'plural-src-msgid': ed(MI, ("                d.src_loc = 'msgid_plural'\n                d.src_fmt = msgid_plural_fmt", "                d.src_loc = 'msgid_plural'\n                d.src_fmt = msgid_fmt")),
+   'keyerror-not-skipped': ed(MI, ("                except KeyError:\n                    # broken plural forms\n                    continue", "                except KeyError:\n                    # broken plural forms\n                    preimage = []")),
+   'plural-without-preimage': ed(MI, ("if has_msgstr_plural and ctx.plural_preimage:", "if has_msgstr_plural:")),
+   'unsorted-forms': ed(MI, ("for i, s in sorted(message.msgstr_plural.items()):", "for i, s in message.msgstr_plural.items():")),
+   'seeded/C14-a': seeded('C14-a'),
+   # behaviour-preserving
+   'bp-rename': ed(MI, ("        msgids = [message.msgid]\n        if message.msgid_plural is not None:\n            msgids += [message.msgid_plural]\n        msgid_fmts = {}\n        for i, s in enumerate(msgids):", "        sources = [message.msgid]\n        if message.msgid_plural is not None:\n            sources += [message.msgid_plural]\n        msgid_fmts = {}\n        for i, s in enumerate(sources):"),
+                           ("                preimage = [\n                    x for x in preimage\n                    if flags.range_min <= x <= flags.range_max\n                ]", "                preimage = [\n                    n for n in preimage\n                    if flags.range_min <= n <= flags.range_max\n                ]"),
+                           ("        strings = []\n", "        todo = []\n"), ("            strings += [d]\n        if has_msgstr_plural", "            todo += [d]\n        if has_msgstr_plural"), ("                strings += [d]\n        for d in strings:", "                todo += [d]\n        for d in todo:")),
+   'bp-inline-has-msgstr': ed(MI, ("        has_msgstr = bool(message.msgstr)\n", ""), ("        if has_msgstr:\n", "        if bool(message.msgstr):\n")),
+   'bp-comments': ed(MI, ("        msgids = [message.msgid]\n", "        # the source strings:\n        msgids = [message.msgid]\n"), ("        for d in strings:\n", "        # compare\n        for d in strings:\n")),
+   'bp-lt-2': ed(MI, ("elif len(preimage) <= 1:", "elif len(preimage) < 2:")),
+   'bp-attr-order': ed(MI, ("            d.src_loc = 'msgid'\n            d.src_fmt = msgid_fmts.get(0)\n            d.dst_loc = 'msgstr'\n", "            d.dst_loc = 'msgstr'\n            d.src_fmt = msgid_fmts.get(0)\n            d.src_loc = 'msgid'\n")),
+   'bp-hoist-gets': ed(MI, ("            for i, s in sorted(message.msgstr_plural.items()):\n                assert isinstance(i, int)\n                d = types.SimpleNamespace()\n                msgid_fmt = msgid_fmts.get(0)\n                msgid_plural_fmt = msgid_fmts.get(1)\n",
+                                   "            msgid_fmt = msgid_fmts.get(0)\n            msgid_plural_fmt = msgid_fmts.get(1)\n            for i, s in sorted(message.msgstr_plural.items()):\n                assert isinstance(i, int)\n                d = types.SimpleNamespace()\n")),
+  }},
  'gettextpf': {
   'translators': ['gettextpf'], 'module': 'I18n.Props.C07Tie', 'tests': ['tests/test_gettext.py'],
   'edits': {
@@ -122,7 +184,7 @@ TIES = {
    'bp-comments-docstring': both(ed(PB, ("        prefix = message_repr(message, template='{}:')\n        src_args = src_fmt.argument_map", "        '''compare the arguments of two python-brace strings'''\n        prefix = message_repr(message, template='{}:')\n        # the parsed arguments:\n        src_args = src_fmt.argument_map")), ed(SC, ("        if n > len(self.arguments):\n            raise IndexError\n        if n <= 0:", "        if n > len(self.arguments):\n            raise IndexError  # more than there are\n        if n <= 0:"))),
    'bp-temp-for-keys': ed(PY, ("        for key in sorted(dst_args.keys() - src_args.keys()):", "        unknown_keys = dst_args.keys() - src_args.keys()\n        for key in sorted(unknown_keys):")),
    'bp-not-form': ed(PB, ("            if not (src_arg.types & dst_arg.types):", "            common = src_arg.types & dst_arg.types\n            if not common:")),
-   'seeded/C14-a': seeded('C14-a'), 'seeded/C14-b': seeded('C14-b'),
+   'seeded/C14-a': seeded('C14-a'), 'seeded/C14-b': seeded('C14-b'), 'seeded/C14-c': seeded('C14-c'),
   }},
 }
 
